@@ -247,6 +247,8 @@ REPLAY_PROGS = [
 
 
 def run_job(job, overlay, scratch):
+    global BOUND
+    BOUND = int(job.get("bound", 4))
     t0 = time.time()
     stats = {"queries": 0, "solver_s": 0.0, "disagreements": 0, "replays": 0}
     r = {"harness": job["name"], "engine": "E2 mir->smt with heap contracts (z3 + cvc5)", "verdict": "inconclusive", "reason": "",
@@ -262,7 +264,7 @@ def run_job(job, overlay, scratch):
         r["reason"] = "need both z3 and cvc5"
         return r
     try:
-        fns = [f for f in e2.parse_mir(e2.dump_mir(overlay, "jaq-json", os.path.join(scratch, "heap"))) if f.name == "bytes_splice"]
+        fns = [f for f in e2.parse_mir(e2.dump_mir(overlay, "jaq-json", os.path.join(scratch, "heap-" + job["name"]))) if f.name == "bytes_splice"]
         if len(fns) != 1:
             r["reason"] = "bytes_splice not found in the MIR of jaq-json (renamed?)"
             return r
@@ -282,7 +284,7 @@ def run_job(job, overlay, scratch):
         r["reason"] = "solver error / disagreement on: " + "; ".join(x["what"] for x in err[:3])
         return r
     if bad:
-        jaq_bin = e2.build_jaq(overlay, os.path.join(scratch, "heap"))
+        jaq_bin = e2.build_jaq(overlay, os.path.join(scratch, "heap-" + job["name"]))
         rep = None
         if jaq_bin:
             for (prog, want) in REPLAY_PROGS:
